@@ -237,6 +237,24 @@ def main():
         trans += fst["transitions"]
         st["compared"] += fst["compared"]
         st["distinct"] += fst["distinct_faults"]
+        # (b'') path operations from several guest threads at once, each thread on names of its own: every call answers as in
+        # that thread's history run alone (the calls that do not touch the descriptor table)
+        exe_t = os.path.join(wd, "wasithreads")
+        rc, so, se = run(["gcc", "-g", "-O1", "-w", "-fsanitize=address", "-I", os.path.join(REPO, "w2c2"), "-I", os.path.join(REPO, "wasi"), *wasi.WDEFS,
+                          os.path.join(BINDC, "wasi_threads_driver.c"), os.path.join(REPO, "wasi", "wasi.c"), "-o", exe_t, "-lm", "-lpthread"], timeout=300)
+        if rc != 0:
+            raise common.MachineryError("cannot build the threaded path driver: " + se[-1500:])
+        tsb = os.path.join(wd, "tsb")
+        os.makedirs(tsb)
+        rc, so, se = run([exe_t, tsb, "6", "500" if tier == "quick" else "20000"], timeout=600, env={"ASAN_OPTIONS": "detect_leaks=0:exitcode=97"})
+        try:
+            tres = json.loads(so.strip().splitlines()[-1])
+        except (ValueError, IndexError):
+            tres = None
+            v.deviation(wasi.asan_sig(se) or "paths:threads:crash", {"rc": rc, "stderr": se[-800:]})
+        if tres and tres["bad"]:
+            v.deviation("paths:threads:wrong-answer", tres)
+        thread_calls = tres["calls"] if tres else 0
         # (c) directory listings: code -> spec
         exe = wasi.build_driver(wd, name="wasidrv2")
         plans, outs = readdir_scenarios(rng, tier, exe, wd)
@@ -298,7 +316,7 @@ def main():
                    "directories of 0..12 entries (names 1..40 bytes, files/dirs/symlinks), listings under buffer sizes 24..4096 and cookies "
                    "{0, any returned d_next}, each call compared by TLC (Readdir.tla) with the function of the stream learned from the first listing, "
                    "which itself must contain every created name once with the lstat'ed inode and type",
-           "resolve_grid": len(grid), "path_histories": len(hists), "host_fault_histories": len(fh),
+           "resolve_grid": len(grid), "path_histories": len(hists), "threaded_path_calls": thread_calls, "host_fault_histories": len(fh),
            "host_faults": {k: fst[k] for k in ("faults_fired", "faults_not_reached", "distinct_faults")}, "readdir_calls": len(trace), "exhaustive": False}
     return v.finish("model_checking", cov,
                     ["directory order, inode numbers and cookie values are the host's (bound from the first listing, never predicted)",
